@@ -151,7 +151,13 @@ def classifyGroup (g : List Rec) : GGroup :=
 
 def groupByPosition (rs : List Rec) : List GGroup := (groupSortedByType rs).map classifyGroup
 
-/-! ### locus-tag grouping through the shared model -/
+/-! ### locus-tag grouping
+
+  Record-level mirror of `sorted(features, key=locus_tag)`, `itertools.groupby`, and the loop of
+  `_group_features_by_locus_tag` — the same algorithm as `Model.Qual.sortByTag / groupRuns / scanRun /
+  processRun` (C18), on `(tag, record)` pairs instead of `(tag, kind, uid)` triples, so that statements about
+  records need no index bookkeeping.  The C18 functions are kept as the second implementation
+  (`groupByLocusTagViaC18`); the model driver answers with the record-level result only when both agree. -/
 
 def kindOf (r : Rec) : Kind :=
   if r.type == tyGene then .gene else if isTxT r then .transcript else if isCdsT r then .cds else .other
@@ -162,6 +168,57 @@ def tagOf (r : Rec) : P Str :=
   | none => throw .keyError
   | some [] => throw .indexError
   | some (t :: _) => pure t
+
+abbrev TRec := Str × Rec
+
+def tagPairs : List Rec → P (List TRec)
+  | [] => pure []
+  | r :: rs => do
+    let t ← tagOf r
+    let rest ← tagPairs rs
+    pure ((t, r) :: rest)
+
+/-- `sorted(features, key=lambda f: f.qualifiers["locus_tag"])` (one-element lists compare as their strings) -/
+def sortPairsByTag (ps : List TRec) : List TRec := ps.mergeSort fun a b => Spec.Qual.strLe a.1 b.1
+
+/-- `itertools.groupby(features, key=tag)`: maximal runs of consecutive equal keys -/
+def groupRunsRec : List TRec → List (Str × List Rec)
+  | [] => []
+  | p :: ps =>
+    match groupRunsRec ps with
+    | (t, g) :: rest => if t = p.1 then (t, p.2 :: g) :: rest else (p.1, [p.2]) :: (t, g) :: rest
+    | [] => [(p.1, [p.2])]
+
+/-- the inner `for feature in gene_features` loop -/
+def scanRunRec : Option Rec → List Rec → List Rec → List Rec → P (Option Rec × List Rec × List Rec)
+  | g, ts, cs, [] => pure (g, ts, cs)
+  | g, ts, cs, f :: fs =>
+    match kindOf f with
+    | .gene => if g.isSome then throw (.doc .Export) else scanRunRec (some f) ts cs fs      -- GenBankLocusTagError
+    | .transcript => scanRunRec g (ts ++ [f]) cs fs
+    | .cds => scanRunRec g ts (cs ++ [f]) fs
+    | .other => scanRunRec g ts cs fs
+
+def processRunRec (run : Str × List Rec) : P GGroup := do
+  let (g, ts, cs) ← scanRunRec none [] [] run.2
+  pure ⟨g, keepFirstTx ts cs, cs⟩
+
+def processRunsRec : List (Str × List Rec) → P (List GGroup)
+  | [] => pure []
+  | r :: rs => do
+    let g ← processRunRec r
+    let gs ← processRunsRec rs
+    pure (g :: gs)
+
+/-- `_group_features_by_locus_tag` on features in the order given -/
+def groupTagOrdered (ps : List TRec) : P (List GGroup) := processRunsRec (groupRunsRec ps)
+
+/-- LocusTag mode: the sort + the grouping -/
+def groupByLocusTagRecs (rs : List Rec) : P (List GGroup) := do
+  let ps ← tagPairs rs
+  groupTagOrdered (sortPairsByTag ps)
+
+/-! the same through C18's model (`uid` = position in the list) -/
 
 def toFeats : Nat → List Rec → P (List Feat)
   | _, [] => pure []
@@ -181,22 +238,10 @@ def pick (rs : List Rec) (ids : List Nat) : List Rec := ids.filterMap fun i => r
 def groupOfTagGroup (rs : List Rec) (g : Group) : GGroup :=
   ⟨g.gene.bind fun i => rs[i]?, pick rs g.transcripts, pick rs g.cdss⟩
 
-/-- LocusTag mode: `sorted(features, key=locus_tag)` + `_group_features_by_locus_tag` -/
-def groupByLocusTagRecs (rs : List Rec) : P (List GGroup) := do
+def groupByLocusTagViaC18 (rs : List Rec) : P (List GGroup) := do
   let fs ← toFeats 0 rs
   let gs ← liftQ (Qual.groupByLocusTag fs)
   pure (gs.map (groupOfTagGroup rs))
-
-/-- `_group_features_by_locus_tag` on features that are already in tag order (Hybrid) -/
-def groupTagSortedRecs (rs : List Rec) : P (List GGroup) := do
-  let fs ← toFeats 0 rs
-  let gs ← liftQ (Qual.groupSorted fs)
-  pure (gs.map (groupOfTagGroup rs))
-
-/-- `sorted(features, key=lambda f: f.qualifiers["locus_tag"])` on records -/
-def sortRecsByTag (rs : List Rec) : P (List Rec) := do
-  let fs ← toFeats 0 rs
-  pure (pick rs ((Qual.sortByTag fs).map (·.uid)))
 
 /-! ### the three `_extract_seqfeatures_from_seqrecords` + grouping -/
 
@@ -231,13 +276,13 @@ def extractHybrid (rs : List Rec) : P Extracted := do
   let tagged := valid.filter fun r => isGeneLike r && hasKey kLocusTag r.quals
   let untagged := valid.filter fun r => isGeneLike r && !hasKey kLocusTag r.quals
   let rest := valid.filter fun r => !isGeneLike r && r.type != tySource
-  let sorted ← sortRecsByTag tagged
-  let withTags ← sorted.mapM fun r => do let t ← tagOf r; pure (t, r)
+  let ps ← tagPairs tagged
+  let withTags := sortPairsByTag ps
   let bad := badTags withTags
-  let good := (withTags.filter fun p => !bad.contains p.1).map (·.2)
+  let good := withTags.filter fun p => !bad.contains p.1
   let badFs := (withTags.filter fun p => bad.contains p.1).map (·.2)
   let byPos := groupByPosition (sortByPositionAndType (untagged ++ badFs))
-  let byTag ← groupTagSortedRecs good
+  let byTag ← groupTagOrdered good
   pure ⟨byPos ++ byTag, rest.length⟩
 
 def extract (m : Mode) (rs : List Rec) : P Extracted :=
